@@ -174,6 +174,9 @@ func zzC11_cer() {
 		vReach("C11_cer")
 		return
 	}
+	vObserve("rc", uint64(rc))
+	vObserve("closed", uint64(c.closed))
+	vObserveBytes("cea", c.written[0])
 	vAssert((rc == diam.Success) == accept, "success exactly when origin host and realm are named, no in-band security is required and a common application exists")
 	// identity and addresses on every CEA
 	ohA, e1 := cea.FindAVP(avp.OriginHost, 0)
